@@ -174,6 +174,8 @@ class SharedSim(base.Sim):
         elif e[0] == 'SS':
             d = rd.RadioDriver()
             d._radio = rd.RadioManager.open(0)
+            d.uri = 'radio://0'          # a driver object on the default address (scan_selected reports the address it
+            #                              probes with, taken from its uri, since fix F20c)
             try:
                 self.scans.append((e, list(d.scan_selected(e[1]))))
             finally:
